@@ -424,6 +424,8 @@ class SemiAsyncValueIteration(ValueIteration):
                 batched_states.shape[2],  # batch_size
             )
 
+        if _verif.ENABLED:
+            _verif.emit("perm", solver=self, perm=shuffled_state_idxs)
         # Process batches semi-asynchronously
         padded_batched_values = self._calculate_updated_value_scan_state_batches_pmap(
             (actions, random_events, gamma, values), (batched_states, padding_mask)
